@@ -191,7 +191,15 @@ type historyCase struct {
 	// long slice with spare capacity behind each batch (the way a caller cuts the samples of a source track into
 	// intervals), instead of a freshly allocated slice per call.
 	SharedSrc bool `json:"sharedSrc,omitempty"`
+	// EarlyOpt: the EncOptimize option of the encoded variant is set on every segment and fragment when it is
+	// created (a caller that configures the object first and fills it afterwards), not only right before encoding.
+	// Together with ops of kind "peek" (Size() of the fragment and its segment and Info between two additions)
+	// this is the history "accessor called between two mutations".
+	EarlyOpt bool `json:"earlyOpt,omitempty"`
 }
+
+// interpretOpt is the optimisation of the variant that interpret builds for (used with EarlyOpt only).
+var interpretOpt mp4.EncOptimize
 
 // sampleBytes: the bytes of the ctr-th sample added in the history (all tracks counted together). The counter enters
 // every byte, so that neighbouring samples differ even when they are one byte long or repetitions of one sampleDef: a
@@ -440,6 +448,10 @@ func interpret(c *historyCase, st *stats) (*built, *harness.Fail) {
 			if o.LargeMdat {
 				cf.frag.Mdat.LargeSize = true
 			}
+			if c.EarlyOpt {
+				cf.frag.EncOptimize = interpretOpt
+				cs.seg.EncOptimize = interpretOpt
+			}
 			cs.seg.AddFragment(cf.frag)
 			cs.frags = append(cs.frags, cf)
 			if o.Mode == "meta" {
@@ -449,6 +461,15 @@ func interpret(c *historyCase, st *stats) (*built, *harness.Fail) {
 		}
 		if cf == nil {
 			return nil, bad("%s: no fragment", where)
+		}
+		if o.Kind == "peek" {
+			// accessors between two additions: they must leave the fragment as it is
+			_ = cf.frag.Size()
+			_ = cs.seg.Size()
+			var sink bytes.Buffer
+			_ = cf.frag.Info(&sink, "all:1", "", "  ")
+			st.class("accessors-between-additions")
+			continue
 		}
 		switch o.Kind {
 		case "emsg", "child":
@@ -884,6 +905,7 @@ func cmpRef(what string, want []modelSample, got []fragbuild.PSample) *harness.F
 
 func evalHistory(c *historyCase, st *stats) *harness.Fail {
 	// static classes of the history that decide about the known-defect switches
+	interpretOpt = mp4.OptimizeNone // the probe is used for the first variant, which does not optimise
 	probe, fail := interpret(c, st)
 	if fail != nil {
 		return fail
@@ -937,6 +959,7 @@ func evalHistory(c *historyCase, st *stats) *harness.Fail {
 			vname := map[bool]string{false: "Encode", true: "EncodeSW"}[useSW] + "/" + opt.String()
 			b := probe
 			if b == nil {
+				interpretOpt = opt
 				if b, fail = interpret(c, &stats{}); fail != nil {
 					return fail
 				}
@@ -1711,6 +1734,18 @@ func genCase(t *rapid.T) historyCase {
 				c.Ops = append(c.Ops, op{Kind: kind, Track: fo.Tracks[0], Samples: []sampleDef{genSample(t, bases[fo.Tracks[0]])}})
 			}
 		}
+	}
+	if rapid.IntRange(0, 3).Draw(t, "peeks") == 0 {
+		c.EarlyOpt = rapid.Bool().Draw(t, "earlyOpt")
+		adds := map[string]bool{"full": true, "fullTrack": true, "meta": true, "metaMany": true, "metaTrack": true, "interval": true}
+		var ops []op
+		for _, o := range c.Ops {
+			ops = append(ops, o)
+			if adds[o.Kind] && rapid.IntRange(0, 2).Draw(t, "peekHere") == 0 {
+				ops = append(ops, op{Kind: "peek"})
+			}
+		}
+		c.Ops = ops
 	}
 	return c
 }
